@@ -109,12 +109,14 @@ def routing(ctx, what, part):
             if inattrs:
                 notes.append(('kwset-entered-attrs', name))
             oks.append(not inattrs)
-            oks.append(getattr(ax, name) is w)
+            g = ctx.call(lambda: getattr(ax, name))
+            oks.append(g[0] == 'ok' and g[1] is w)
         for name in ('_foo', '_units'):
             o, dims, labels = fresh()
             ax = kwset(o, **{name: w})
             oks.append(name not in ax.attrs)
-            oks.append(getattr(ax, name) is w)
+            g = ctx.call(lambda: getattr(ax, name))
+            oks.append(g[0] == 'ok' and g[1] is w)
     elif part == 'dims':
         for what_dim in ('x', 'y'):
             o, dims, labels = fresh()
